@@ -36,7 +36,7 @@ var c16Sources = map[string]string{
 	"use.p":   "p(0)\nuse(\"plain.p\")\nuse(\"grok.p\")\nuse(\"plain.p\")\np(1)\n",
 	"loop.p":  "n = 0\nfor j = 0; j < 5; j = j + 1 { n = n + j\nif n > 3 { continue } }\nadd_key(n)\nl = [1, 2, 3]\nl[0] = n\ng = [[0, 0], [1]]\ng[0][0] += n\nmm = {\"k\": [0]}\nmm[\"k\"][0] += 1\np(l[0:2], {\"a\": l}, g, mm)\ndefault_time(ts, \"America/New_York\")\nreplace(message, \"h(e)\", \"$1\")\nsecret = \"left behind by a failed run\"\nfor q in [1] { if q == 1 { p(1 / nosuchkey) } }\n",
 	"all.p": "add_key(a1, 1)\nrename(a2, a1)\ncast(a2, \"str\")\nuppercase(message)\ntrim(message)\nreplace(message, \"L+\", \"l\")\nurl_decode(message)\nstrfmt(s1, \"%v-%d-%s\", a2, 3, message)\n" +
-		"set_measurement(\"mm\")\ndrop_key(a2)\nj = load_json(\"[1, {\\\"a\\\": 2}]\")\np(len(j), j[1][\"a\"], get_key(s1))\nxml(xm, \"/a/b\", xb)\nxml(xm, \"/a/b > 6\", xc)\nxml(xm, \"count(/a/b)\", xd)\nsql_cover(sq)\ndatetime(ep, \"s\", \"RFC3339\")\ndefault_time(ts, \"Asia/Shanghai\")\ndefault_time(ts2)\n" +
+		"set_measurement(\"mm\")\ndrop_key(a2)\nj = load_json(\"[1, {\\\"a\\\": 2}]\")\nj[1][\"a\"] += 1\nj[0] = \"top\"\njd = load_json(jdoc)\njd[\"meta\"][\"hits\"] += 1\njd[\"tags\"][0] = \"seen\"\np(len(j), j[1][\"a\"], get_key(s1), j, jd)\nxml(xm, \"/a/b\", xb)\nxml(xm, \"/a/b > 6\", xc)\nxml(xm, \"count(/a/b)\", xd)\nsql_cover(sq)\ndatetime(ep, \"s\", \"RFC3339\")\ndefault_time(ts, \"Asia/Shanghai\")\ndefault_time(ts2)\n" +
 		"if \"a\" in \"abc\" && 1 in [1] { p(-1 % 2 == -1) }\n",
 }
 
@@ -53,7 +53,8 @@ var c16BadSrc = "a = (1 +\n\"unterminated\nb = -0x\n"
 
 func c16Point(slot int) PointSpec {
 	return PointSpec{Meas: fmt.Sprintf("m%d", slot), Tags: map[string]string{"t0": "tv"}, Fields: map[string]any{
-		"message": fmt.Sprintf("hello %d", 40+slot), "xm": fmt.Sprintf("<a><b>%d</b><b>%d</b></a>", 5+slot, 3*slot), "sq": c16SQL[slot%len(c16SQL)], "ep": int64(1600000000), "ts": "2021-01-02 03:04:05", "ts2": "2021-03-04 05:06:07"}, Time: int64(slot)}
+		"message": fmt.Sprintf("hello %d", 40+slot), "xm": fmt.Sprintf("<a><b>%d</b><b>%d</b></a>", 5+slot, 3*slot), "sq": c16SQL[slot%len(c16SQL)], "ep": int64(1600000000), "ts": "2021-01-02 03:04:05", "ts2": "2021-03-04 05:06:07",
+		"jdoc": `{"meta": {"hits": 0}, "tags": ["new", "x"]}`}, Time: int64(slot)}
 }
 
 func c16Ops() []c16Op {
